@@ -189,7 +189,7 @@ def project(raw_events, scenario, bound=None):
             return "data-bad-trace"
         return "data-ok"
 
-    big_resp = set(ev.get("size", 0) for ev in raw_events if ev.get("ev") == "RespCall" and ev.get("size", 0) > MAX_PAYLOAD)
+    big_resp = set(ev.get("size", 0) for ev in raw_events if ev.get("ev") in ("RespCall", "InitErrCall") and ev.get("size", 0) > MAX_PAYLOAD)
     # invocation ordinal -> sizes of the oversized responses posted for its request id
     big_by_k = {}
     for ev in raw_events:
@@ -240,6 +240,7 @@ def project(raw_events, scenario, bound=None):
                     slow_cid[ev["slow"]] = ev["seq"]
             elif kind == "InitErrCall":
                 o["body"] = body_label(ev.get("body"))
+                o["big"] = ev.get("size", 0) > MAX_PAYLOAD
                 o["et"] = sanitise(ev.get("errType", ""))
             elif kind == "RegisterCall":
                 o["name"] = ev.get("name", "")
